@@ -33,6 +33,8 @@ Definition check_cov (c : bool * list XQ * list XQ * list (list XQ) * list nat *
                           * list (list Q) * list (list Q)) : bool :=
   let '(clean, t, rv, cov, pi, ot, orv, ocov, qcov, qivar) := c in
   init_check_cov clean t rv cov pi ot orv ocov && inv_check (1 # 100000000) qcov qivar.
+Definition check_cov_sel (c : list XQ * list XQ * list (list XQ) * list nat * list XQ * list XQ * list (list XQ)) : bool :=
+  let '(t, rv, cov, sel, st, srv, scov) := c in slice_check_cov t rv cov sel st srv scov.
 """
 
 
@@ -128,6 +130,8 @@ def gen_cases(ctx):
             dict(n=n, t=t.tolist(), rv=rv.tolist(), err=err.tolist(), clean=clean, cov=cov, nonfinite=nf, unit=unit, tmode=tmode,
                  tref=tref, tref_val=base - 17.25, seed=int(rng.integers(0, 2**31)))
         )
+        if rng.random() < 0.3:  # uncertainties handed over in another (equivalent) unit than the velocities
+            cases[-1]["err_unit"] = [x for x in ("km/s", "m/s", "pc/Myr") if x != unit][int(rng.integers(0, 2))]
     return cases
 
 
@@ -143,18 +147,19 @@ def build_inputs(case):
     for i, v in case["nonfinite"]["rv"]:
         rv[i] = v
     unit = u.Unit(case["unit"])
+    eunit = u.Unit(case.get("err_unit") or case["unit"])  # the uncertainties keep the unit they were given in
     n = len(t)
     if case["cov"]:
         r = np.random.default_rng(case["seed"])
         a = np.round(r.normal(0, 0.2, (n, n)) * 64) / 64
         C = a @ a.T + np.diag(err**2 + 1.0)
         C = (C + C.T) / 2
-        errq = C * unit**2
+        errq = C * eunit**2
         errv = C
     else:
         for i, v in case["nonfinite"]["err"]:
             err[i] = v
-        errq = err * unit
+        errq = err * eunit
         errv = err
     if case["tmode"] == "time":
         tfin = np.where(np.isfinite(t), t, 55000.0)  # Time() of non-finite values is avoided: those rows get NaN velocity instead
@@ -170,7 +175,7 @@ def build_inputs(case):
         tref = False
     else:
         tref = Time(case["tref_val"], format="mjd", scale="tcb")
-    return t_in, t_model, rv, errv, errq, unit, tref
+    return t_in, t_model, rv, errv, errq, unit, tref, eunit
 
 
 def predicate_rows(in_rows, out_rows, clean):
@@ -190,7 +195,7 @@ def run_case(case):
     """Run the implementation; returns (coq term kind, coq term, problems, nontrivial)."""
     from thejoker.data import RVData
 
-    t_in, t_model, rv, errv, errq, unit, tref = build_inputs(case)
+    t_in, t_model, rv, errv, errq, unit, tref, eunit = build_inputs(case)
     problems = []
     try:
         d = RVData(t_in, rv * unit, errq, t_ref=tref, clean=case["clean"])
@@ -204,7 +209,7 @@ def run_case(case):
         ot = np.asarray(d._t_bmjd, float)
         orv = np.asarray(d.rv.value, float)
         ocov = np.asarray(d.rv_err.value, float)
-        if d.rv_err.unit != unit**2:
+        if d.rv_err.unit != eunit**2:
             problems.append("covariance unit changed")
         pi = find_pi(list(zip(t_model, rv)), list(zip(ot, orv)))
         if pi is None:
@@ -217,7 +222,7 @@ def run_case(case):
         if sorted(pi) != keep:
             problems.append("kept set differs from the finite observations")
         try:
-            iv = np.asarray(d.ivar.to_value(1 / unit**2), float)
+            iv = np.asarray(d.ivar.to_value(1 / eunit**2), float)
         except Exception as e:
             problems.append(f"ivar raised {e}")
             iv = np.zeros_like(ocov)
@@ -230,15 +235,42 @@ def run_case(case):
         xm = lambda m: coq_list([xq_list(row) for row in np.asarray(m).tolist()])
         term = (f"({coq_bool(case['clean'])}, {xq_list(t_model)}, {xq_list(rv)}, {xm(errv)}, {nat_list(pi)}, {xq_list(ot)}, {xq_list(orv)}, "
                 f"{xm(ocov)}, {qm(qc)}, {qm(qi)})")
-        return "cov", term, problems, nontriv
+        sel_terms = []
+        # selections of covariance data (slice, boolean mask, index array): the sub-matrix of the selected rows AND columns, same units;
+        # each is certified as a construction from the parent's rows with the selection as the permutation
+        r = np.random.default_rng(case["seed"] + 1)
+        m = len(ot)
+        if m >= 1:
+            a, b = sorted(r.integers(0, m + 1, 2).tolist())
+            forms = [slice(a, b), slice(None, None, 2), r.random(m) < 0.6, np.sort(r.choice(m, size=int(r.integers(1, m + 1)), replace=False))]
+            for f in forms:
+                sel = np.arange(m)[f].tolist()
+                if len(sel) == 0:
+                    continue
+                try:
+                    s = d[f]
+                    st, srv, scov = np.asarray(s._t_bmjd, float), np.asarray(s.rv.value, float), np.asarray(s.rv_err.value, float)
+                except Exception as e:
+                    problems.append(f"data[{f!r}] on covariance data raised {type(e).__name__}: {e}")
+                    continue
+                exp = ocov[np.ix_(sel, sel)]
+                if scov.shape != exp.shape or not np.array_equal(scov, exp, equal_nan=True) or s.rv_err.unit != eunit**2:
+                    problems.append(f"data[{f!r}] on covariance data: uncertainties of shape {scov.shape} in {s.rv_err.unit}, expected the "
+                                    f"{exp.shape} sub-matrix of the selected rows and columns in {eunit**2}")
+                    continue
+                if not (np.array_equal(st, ot[sel], equal_nan=True) and np.array_equal(srv, orv[sel], equal_nan=True)) or s.rv.unit != unit:
+                    problems.append(f"data[{f!r}] on covariance data does not hold the selected observations")
+                    continue
+                sel_terms.append(f"({xq_list(ot)}, {xq_list(orv)}, {xm(ocov)}, {nat_list(sel)}, {xq_list(st)}, {xq_list(srv)}, {xm(scov)})")
+        return "cov", {"cov": [term], "covsel": sel_terms}, problems, nontriv
     in_rows = list(zip(t_model.tolist(), rv.tolist(), np.asarray(errv, float).tolist()))
     out_rows = rows_of(d)
     problems += predicate_rows(in_rows, out_rows, case["clean"])
     pi = find_pi(in_rows, out_rows)
     if pi is None:
         return None, None, problems or ["no pairing permutation"], nontriv
-    if d.rv_err.unit != unit:
-        problems.append("error unit changed")
+    if d.rv_err.unit != eunit:
+        problems.append(f"error unit changed: given in {eunit}, stored in {d.rv_err.unit}")
     otr = tref_obs(d)
     if case["tref"] == "false":
         ta = "TrefFalse"
@@ -253,7 +285,7 @@ def run_case(case):
         if otr is None or abs(otr - float(tref.tcb.mjd)) > 1e-8:
             problems.append("explicit t_ref not stored")
     try:
-        iv = np.asarray(d.ivar.to_value(1 / unit**2), float).tolist()
+        iv = np.asarray(d.ivar.to_value(1 / eunit**2), float).tolist()  # per squared unit of the uncertainties as given
     except Exception as e:
         problems.append(f"ivar raised {e}")
         iv = []
@@ -304,8 +336,8 @@ def run_case(case):
             if spi is None or sorted(bits(x[1]) for x in srow) != exp:
                 problems.append(f"data[{f!r}] does not hold the selected observations")
                 spi = spi or []
-            if s.rv.unit != unit:
-                problems.append("slice changed the unit")
+            if s.rv.unit != unit or s.rv_err.unit != eunit:
+                problems.append("slice changed a unit")
             sl_terms.append(f"({nat_list(sel)}, {nat_list(spi)}, {obs_list(srow)})")
     term = (f"({coq_bool(case['clean'])}, {obs_list(in_rows)}, {ta}, {nat_list(pi)}, {obs_list(out_rows)}, {tref_term(otr)}, {xq_list(iv)}, "
             f"{copy_term}, {coq_list(sl_terms)})")
@@ -316,17 +348,21 @@ HEADER2 = HEADER
 
 
 def run_cases(ctx, cases):
-    groups = {"diag": [], "cov": []}
+    groups = {"diag": [], "cov": [], "covsel": []}
     n_nt = 0
     for c in cases:
         kind, term, problems, nontriv = run_case(c)
         if problems:
             sig = "C15:copy-t_ref" if all("copy() changed the reference epoch" in p for p in problems) else "C15:rvdata"
             ctx.fail("predicate", sig, "RVData: " + "; ".join(problems[:3]), case=c)
-        if term is not None:
+        if isinstance(term, dict):
+            for k_, ts_ in term.items():
+                for t_ in ts_:
+                    groups[k_].append((c, t_))
+        elif term is not None:
             groups[kind].append((c, term))
         n_nt += bool(nontriv)
-    for kind, fn in (("diag", "check_diag"), ("cov", "check_cov")):
+    for kind, fn in (("diag", "check_diag"), ("cov", "check_cov"), ("covsel", "check_cov_sel")):
         items = groups[kind]
         if not items:
             continue
@@ -362,7 +398,7 @@ def run(ctx):
     ctx.coverage.update(evaluations=n_eval, distinct_nontrivial=n_nt)
     return ctx.finish(
         rule="random RVData inputs: 1..%d epochs, duplicated/unsorted times (float BMJD or Time), NaN/+-inf in each array, 3 velocity units, "
-        "1-D errors or full covariance, clean on/off, t_ref default/False/explicit; then copy() and 5 slice forms; "
+        "1-D errors or full covariance, uncertainties in the velocity unit or another equivalent one, clean on/off, t_ref default/False/explicit; then copy() and 5 slice forms (4 on covariance data: slice, stride, boolean mask, index array); "
         "non-trivial = unsorted input or at least one non-finite entry" % (12 if ctx.tier == "quick" else 30),
         assumptions=[
             "astropy Time: t.tcb.mjd of a tcb/mjd Time is taken as the input time (the conversion itself is trusted)",
